@@ -17,7 +17,8 @@ ARGS = [
     (),
 ]
 # result structures: 'L' secret int, 'F' secret fixed-point, 'B' secret boolean, 'k' plain int, 'n' None
-RETS = ["L", ["L", "k"], ("F", "B"), {"x": "L", "y": ["L"]}, "k", "n", ["L", "L", "L"]]
+# 'S': the SAME secret object as the previous secret leaf (a wire reported twice gets two outputs, each tied)
+RETS = ["L", ["L", "k"], ("F", "B"), {"x": "L", "y": ["L"]}, "k", "n", ["L", "L", "L"], ["L", "S"], {"a": "L", "b": ("S", "L")}]
 
 
 def _build(struct, leaf):
@@ -101,7 +102,9 @@ class Snark(Contract):
 
             def ret_leaf(kind):
                 m[0] += 1
-                if kind == "L":
+                if kind == "S":
+                    x = self._secret[-1]
+                elif kind == "L":
                     x = c.operand("out%d" % m[0])
                 elif kind == "F":
                     x = c.mk_fxp(c.operand("out%d" % m[0]))
@@ -214,7 +217,8 @@ def body(*a, **k):
     rt.PrivVal(7)
     secret = []
     def leaf(kind):
-        if kind == "L": x = rt.PrivVal(next(outs))
+        if kind == "S": x = secret[-1]
+        elif kind == "L": x = rt.PrivVal(next(outs))
         elif kind == "F": x = fx.LinCombFxp(rt.PrivVal(next(outs)), False)
         elif kind == "B": x = bo.LinCombBool(rt.PrivVal(next(outs) % 2), False)
         elif kind == "k": return 43
